@@ -124,8 +124,10 @@ class CParser:
         self._scope_stack.append(dict())
 
     def _pop_scope(self) -> None:
-        assert len(self._scope_stack) > 1
-        self._scope_stack.pop()
+        # An unmatched '}' is reported by the parser when it reaches the
+        # token; the outermost (file) scope is never popped.
+        if len(self._scope_stack) > 1:
+            self._scope_stack.pop()
 
     def _add_typedef_name(self, name: str, coord: Optional[Coord]) -> None:
         """Add a new typedef name (ie a TYPEID) to the current scope"""
